@@ -7,3 +7,11 @@ package dataset
 func (c *CompactionWorker) VerifCompact(datasetID string, strategy CompactionStrategy) error {
 	return c.compact(datasetID, strategy)
 }
+
+// VerifDedupStrategy returns the deduplication strategy with the given flush
+// threshold (0 = product default).
+func VerifDedupStrategy(flushAfter int) CompactionStrategy {
+	s := DeduplicationStrategy()
+	s.(*deduplicationStrategy).flushAfter = flushAfter
+	return s
+}
